@@ -108,6 +108,27 @@ func TestVerifC20Asm(t *testing.T) {
 			}
 		}
 	}
+	// the order of the printed definitions does not depend on whether the module was printed before
+	{
+		cases++
+		func() {
+			defer func() {
+				if e := recover(); e != nil {
+					fail("print twice: panic %v", e)
+				}
+			}()
+			m, err := ParseString("t.ll", "!0 = !{}\n!1 = !{!0}\n!5 = !{!1}\n")
+			if err != nil {
+				fail("print twice: %v", err)
+				return
+			}
+			m.MetadataDefs = append(m.MetadataDefs, &metadata.Tuple{MetadataID: -1}, &metadata.Tuple{MetadataID: -1})
+			first := m.String()
+			if second := m.String(); second != first {
+				fail("a parsed module with two appended, not yet numbered metadata definitions prints differently the second time:\n%s\n---\n%s", first, second)
+			}
+		}()
+	}
 	// named metadata, type definitions and comdats are listed in the natural order of their NAMES (not of
 	// their printed, escaped spelling): build modules, print, and compare the order of the definitions
 	{
